@@ -1104,6 +1104,61 @@ def static_signature_scenarios(ctx, out, stats=None):
                          f'the positional parameters of the Python signature are {want}', case)
 
 
+def alias_scenarios(ctx, out, stats=None):
+    """Static class bodies in which names are bound to functions defined under another name: dunder ALIASES of ordinary
+    methods (`__str__ = describe`, `__call__ = run`), ordinary aliases (`go = run`), an ordinary name for a dunder method
+    (`shown = __repr__`).  A double-underscore KEY never gives an operation, nor does a double-underscore function; every
+    other binding of a method gives one operation (named after the function).  Own PRNG stream 'C20:aliases'."""
+    import collections
+    common.use_repo()
+    stats = stats if stats is not None else {}
+    rng = common.rng_for(ctx.seed, 'C20:aliases')
+    tag = {'scenario': 'aliases', 'seed': ctx.seed, 'tier': ctx.tier, 'section': 'C3'}
+    plain = ['describe', 'run', 'step', '_helper']
+    dunders = ['__str__', '__call__', '__repr__', '__len__', '__iter__']
+    for ci in range(400 if ctx.tier == 'thorough' else 60):
+        style = 'meta' if ci % 2 == 0 else 'decorator'
+        defs = rng.sample(plain, rng.randint(1, 3))
+        ddefs = rng.sample(dunders[2:], rng.randint(0, 1))
+        body = [['def', n, rng.randint(0, 2)] for n in defs + ddefs]
+        rng.shuffle(body)
+        for _ in range(rng.randint(1, 4)):
+            target = rng.choice(defs + ddefs)
+            key = rng.choice(dunders[:2] + ['go', 'shown', 'also']) if rng.random() < 0.8 else rng.choice(dunders)
+            if any(b[1] == key for b in body):
+                continue
+            at = max(i for i, b in enumerate(body) if b[0] == 'def' and b[1] == target) + 1
+            body.insert(rng.randint(at, len(body)), ['alias', key, target])
+        if ci < 4:      # the plain witnesses first
+            body = [['def', 'describe', 1], ['alias', '__str__', 'describe'], ['def', 'run', 0], ['alias', '__call__', 'run']] + \
+                   ([['alias', 'go', 'run']] if ci >= 2 else [])
+        lines = ['from pyecore.ecore import *']
+        lines += [f'class S{ci}(EObject, metaclass=MetaEClass):'] if style == 'meta' else ['@EMetaclass', f'class S{ci}(object):']
+        for b in body:
+            if b[0] == 'def':
+                lines += [f'    def {b[1]}({", ".join(["self"] + REQ_NAMES[:b[2]])}):', "        return 'x'"]
+            else:
+                lines.append(f'    {b[1]} = {b[2]}')
+        src = '\n'.join(lines) + '\n'
+        case = dict(tag, history=body, style=style, source=src)
+        stats['alias_classes'] = stats.get('alias_classes', 0) + 1
+        try:
+            cls = getattr(exec_static(src), f'S{ci}')
+        except Exception as e:      # noqa: BLE001
+            out.fail({'property': 'C20', 'clause': 'static-reflection-raised', 'culprit': 'promote', 'qualifiers': ['aliased-methods']},
+                     f'defining the static class raised {type(e).__name__}: {e}\n{src}', case)
+            continue
+        got = collections.Counter(o[0] for o in reflected(cls))
+        want = collections.Counter()
+        for b in body:
+            fn = b[1] if b[0] == 'def' else b[2]
+            if not b[1].startswith('__') and not fn.startswith('__'):
+                want[fn] += 1
+        if got != want:
+            out.fail({'property': 'C20', 'clause': 'static-reflection', 'culprit': 'promote', 'qualifiers': ['aliased-methods']},
+                     f'static class with aliases: operations {dict(got)}, the bindings of methods under non-dunder names are {dict(want)}\n{src}', case)
+
+
 def random_bulk_walk(rng, params, n):
     """n edits of which about half are BULK calls on eParameters (clear, del [:], del op.eParameters, extend of several,
     +=, whole-list assignment, pop), the others single edits."""
@@ -1164,6 +1219,47 @@ def bulk_param_scenarios(ctx, out, model=None, intern=None, stats=None):
         case = dict(tag, history=h, names=[norm(name), name])
         run_history(out, model, intern, h, case['names'], case, stats)
         stats['bulk_parameter_histories'] = stats.get('bulk_parameter_histories', 0) + 1
+
+
+def retype_scenarios(ctx, out, model=None, intern=None, stats=None):
+    """A declared operation's parameters get another type -- also NO type (eType = None) and back -- or another name, one at a
+    time, mixed with the single edits: the signature (defaults included) follows at once.  Own PRNG stream 'C20:retype';
+    implementation + oracle only."""
+    common.use_repo()
+    intern = intern or mio.Interner()
+    stats = stats if stats is not None else {'histories': 0, 'ops': 0, 'op_kinds': {}, 'outcomes': {}, 'samples': []}
+    rng = common.rng_for(ctx.seed, 'C20:retype')
+    tag = {'scenario': 'retype', 'seed': ctx.seed, 'tier': ctx.tier, 'section': 'E4'}
+    kinds = ['int', 'str', 'bool', 'none', 'sdt', 'enum', 'ref']
+    hs = []
+    for k0 in ('int', 'bool', 'sdt', 'enum'):
+        for k1 in ('none', 'str', 'bool'):
+            params = [['a', 1, 'int'], ['d', 0, k0], ['e', 0, 'int']]
+            for pos, beh, upper in ((1, None, None), (2, 3, 1)):
+                hs.append(walk_history('run', params, [['retype', 1, k1], ['retype', 1, k0], ['retype', 0, 'none'], ['retype', 2, 'none'],
+                                                        ['rename', 1, 'dd'], ['retype', 2, 'bool']], pos, beh, upper))
+    for _ in range(1500 if ctx.tier == 'thorough' else 150):
+        params = shape(rng.randrange(3), rng.randrange(1, 3))
+        cur = [list(p) for p in params]
+        steps = []
+        for _ in range(rng.randint(3, 7)):
+            x = rng.random()
+            if cur and x < 0.5:
+                e = ['retype', rng.randrange(len(cur)), rng.choice(kinds + ['none', 'none'])]
+            elif cur and x < 0.65:
+                e = ['rename', rng.randrange(len(cur)), fresh_names(cur, 1)[0]]
+            else:
+                e = random_walk(rng, cur, 1)[0]
+            steps.append(e)
+            cur = mio.apply_param_edits(cur, [e])
+        pos = rng.choice([1, 2, 3])
+        hs.append(walk_history(rng.choice(['run', 'class', 'go']), params, steps, pos,
+                               rng.choice([None, None, min(pos + 1, 3)]) if pos < 3 else None, rng.choice([None, 1]) if pos > 1 else None))
+    for h in hs:
+        name = [op[2] for op in h if op[0] == 'addop'][-1]
+        case = dict(tag, history=h, names=[norm(name), name])
+        run_history(out, model, intern, h, case['names'], case, stats)
+        stats['retype_histories'] = stats.get('retype_histories', 0) + 1
 
 
 def invalid_walk_scenarios(ctx, out, model=None, intern=None, stats=None):
@@ -1341,8 +1437,10 @@ def run(ctx, out):
     section_d(out, model, intern, stats, ctx)
     redeclare_scenarios(ctx, out, model, intern, stats)
     static_signature_scenarios(ctx, out, stats)
+    alias_scenarios(ctx, out, stats)
     invalid_walk_scenarios(ctx, out, model, intern, stats)
     bulk_param_scenarios(ctx, out, model, intern, stats)
+    retype_scenarios(ctx, out, model, intern, stats)
     roundtrip_scenarios(ctx, out, stats)
     model.close()
     if mio.flag_installed():
@@ -1373,6 +1471,7 @@ def run(ctx, out):
         'edit_walks_through_invalid_parameter_lists': stats.get('through_invalid_histories', 0),
         'edit_walks_with_bulk_calls_on_eParameters': stats.get('bulk_parameter_histories', 0),
         'static_classes_with_non_positional_parameters': stats.get('static_signature_classes', 0),
+        'static_classes_with_aliased_methods': stats.get('alias_classes', 0), 'retype_rename_walks': stats.get('retype_histories', 0),
         'static_methods_with_non_positional_parameters': stats.get('static_signature_methods', 0),
         'roundtrips_through_ecore': stats.get('roundtrips_through_ecore', 0), 'methods_checked_in_roundtrips': stats.get('roundtrip_methods', 0),
         'roundtrips_whose_declaration_did_not_survive_the_file': stats.get('roundtrip_declaration_lost', 0),
@@ -1400,6 +1499,10 @@ def replay(ctx, rep):
     case = rep['case']
     if case.get('scenario') == 'roundtrip':
         return common.scenario_replay(ctx, rep, {'roundtrip': roundtrip_scenarios})
+    if case.get('scenario') == 'aliases':
+        return common.scenario_replay(ctx, rep, {'aliases': alias_scenarios})
+    if case.get('scenario') == 'retype':
+        return common.scenario_replay(ctx, rep, {'retype': retype_scenarios})
     if case.get('scenario') == 'staticsig':
         return common.scenario_replay(ctx, rep, {'staticsig': static_signature_scenarios})
     if case.get('scenario') == 'bulkparams':
